@@ -400,17 +400,19 @@ def _check_cond(k, case, ids, log):
             k.probe('cond_notify_only_timedout_sleepers')
         if n['name'] == 'notify_all':
             for w in untimed:
-                if w['res'] is not True:
+                if w['res'] is not True or w['wk'] is None or w['wk'] > n['e']:
                     viol.append(V('C17.c', 'notify_all-lost-wakeup',
-                                  'untimed waiter %r was sleeping when notify_all %r began, result %r'
-                                  % (w['key'], n['key'], w['res'])))
+                                  'untimed waiter %r was sleeping when notify_all %r began; result %r, '
+                                  'acknowledged wake at step %r, notify_all returned at step %r'
+                                  % (w['key'], n['key'], w['res'], w['wk'], n['e'])))
         else:
             if len(sl) == 1 and untimed:
                 w = sl[0]
-                if w['res'] is not True:
+                if w['res'] is not True or w['wk'] is None or w['wk'] > n['e']:
                     viol.append(V('C17.c', 'notify-lost-wakeup',
-                                  'sole untimed waiter %r not woken by notify %r (result %r)'
-                                  % (w['key'], n['key'], w['res'])))
+                                  'sole untimed waiter %r not woken by notify %r (result %r, acknowledged '
+                                  'at step %r, notify returned at step %r)'
+                                  % (w['key'], n['key'], w['res'], w['wk'], n['e'])))
     # (d) end state: counters consistent, nobody stuck except un-owed untimed waiters
     live = [a for a in k.actors if a.state != 'done']
     blocked_waiters = 0
